@@ -312,7 +312,71 @@ pub fn run(ctx: &Ctx) -> Result<(), String> {
     if let Some(e) = failed.lock().unwrap().take() {
         return Err(e);
     }
+    // observed behaviour: the batch size the server RUNS with equals the written one. The real
+    // configuration path (YAML file -> make_config -> Server::new) is used in-process; 2b+1 requests
+    // are queued before the first step, so the batches must be exactly {b, b, 1}.
+    let behav_n = AtomicU64::new(0);
+    {
+        crate::inproc::init();
+        let bs: Vec<u32> = ctx.tier.pick(vec![1, 2, 3, 5, 6, 7, 12, 31, 33, 63, 64], (1..=64).collect());
+        let lt_pk = rtref::crypto::public_key(&rtref::crypto::unhex(BASE_SEED_HEX).try_into().unwrap());
+        par_for(bs.len(), 1, |k, _| {
+            let b = bs[k] as usize;
+            let dir = crate::proc::scratch_dir();
+            let mut w = Written::base(8686);
+            w.set("batch_size", &b.to_string());
+            let path = dir.join("behaviour.yaml");
+            let _ = std::fs::write(&path, w.yaml());
+            let r = (|| -> Result<Vec<usize>, String> {
+                let cfg = roughenough::config::make_config(path.to_str().unwrap()).map_err(|e| format!("{:?}", e))?;
+                let std_sock = std::net::UdpSocket::bind("127.0.0.1:0").map_err(|e| e.to_string())?;
+                std_sock.set_nonblocking(true).unwrap();
+                {
+                    use std::os::unix::io::AsRawFd;
+                    crate::inproc::set_rcvbuf(std_sock.as_raw_fd(), 8 << 20); // 129 queued datagrams must fit
+                }
+                let addr = std_sock.local_addr().unwrap();
+                let sock = mio::net::UdpSocket::from_socket(std_sock).map_err(|e| e.to_string())?;
+                let queue = std::sync::Arc::new(roughenough::stats::StatsQueue::new(4));
+                let mut server = crate::util::catch(|| roughenough::server::Server::new(cfg.as_ref(), sock, queue))?;
+                let n = 2 * b + 1;
+                let clients: Vec<crate::inproc::Client> = (0..n).map(|_| crate::inproc::Client::new()).collect();
+                let reqs: Vec<Vec<u8>> = (0..n).map(|i| rtref::responder::std_request(rtref::Version::Classic, &crate::inproc::nonce(0x1600 + i as u64, 64))).collect();
+                for (c, r) in clients.iter().zip(&reqs) {
+                    c.send(addr, r);
+                }
+                let mut events = mio::Events::with_capacity(1024);
+                for _ in 0..8 {
+                    crate::util::catch(|| server.process_events(&mut events))?;
+                }
+                let mut groups: BTreeMap<Vec<u8>, usize> = BTreeMap::new();
+                for (c, r) in clients.iter().zip(&reqs) {
+                    for (d, _) in c.drain() {
+                        if let Ok(info) = rtref::verifier::authentic(&d, r, rtref::Version::Classic, Some(&lt_pk), rtref::verifier::SERVER_VIEW) {
+                            *groups.entry(info.srep_bytes).or_insert(0) += 1;
+                        }
+                    }
+                }
+                let mut v: Vec<usize> = groups.values().copied().collect();
+                v.sort();
+                Ok(v)
+            })();
+            let _ = std::fs::remove_dir_all(&dir);
+            behav_n.fetch_add(1, Relaxed);
+            match r {
+                Err(e) => ctx.violation("behaviour-probe-failed", "batch_size", "observed-behaviour", json!({"kind":"behaviour","batch_size":b,"error":e})),
+                Ok(got) => {
+                    let mut want = vec![1, b, b];
+                    want.sort();
+                    if got != want {
+                        ctx.violation("effective-differs-from-written", "batch_size", "observed-behaviour", json!({"kind":"behaviour","batch_size":b,"message":format!("written batch_size {} but {} queued requests were answered in batches {:?} (expected {:?})", b, 2 * b + 1, got, want)}));
+                    }
+                }
+            }
+        });
+    }
     let _ = std::fs::remove_dir_all(&pdir);
+    ctx.cov("behaviour_probes", json!(behav_n.load(Relaxed)));
     ctx.cov("evaluations", json!(evals.load(Relaxed) + real_n.load(Relaxed)));
     ctx.cov("distinct_nontrivial", json!(nontrivial.load(Relaxed) + real_n.load(Relaxed)));
     ctx.cov("grid_points", json!(g.len()));
@@ -320,7 +384,7 @@ pub fn run(ctx: &Ctx) -> Result<(), String> {
     ctx.cov("outcome_classes", json!(*classes.lock().unwrap()));
     ctx.cov("exhaustive", json!(true));
     ctx.cov("bound", json!({"deviations": ctx.tier.pick(1, 2), "keys": 10}));
-    ctx.cov("rule", json!("configuration grid: for each documented key a boundary value list (minimum-1, minimum, typical, maximum, maximum+1, type-width wrap points 255/256/300/65535/65536/70000 and their modular images, negatives, non-numeric, empty; seed strings of length 62/63/66, non-hex, upper-case; client_stats spellings; missing required keys; an unknown file key); every (key,value) as ONE deviation from each of two valid bases (minimal; every optional key set, incl. per-client statistics with a writable directory) through the real make_config + is_valid_config in a probe process, from the YAML file and from the environment (thorough: all pairs of numeric deviations); plus the real server binary started on every 1-deviation point. Oracle (reference semantics of the documented keys): outcome is refused, or accepted with every getter equal to the written value; documented in-range values must be accepted; out-of-range/missing/unknown must be refused; file and ENV agree; the real binary refuses exactly what the probe refuses and displays the probe's values."));
+    ctx.cov("rule", json!("configuration grid: for each documented key a boundary value list (minimum-1, minimum, typical, maximum, maximum+1, type-width wrap points 255/256/300/65535/65536/70000 and their modular images, negatives, non-numeric, empty; seed strings of length 62/63/66, non-hex, upper-case; client_stats spellings; missing required keys; an unknown file key); every (key,value) as ONE deviation from each of two valid bases (minimal; every optional key set, incl. per-client statistics with a writable directory) through the real make_config + is_valid_config in a probe process, from the YAML file and from the environment (thorough: all pairs of numeric deviations); plus the real server binary started on every 1-deviation point. Oracle (reference semantics of the documented keys): outcome is refused, or accepted with every getter equal to the written value; documented in-range values must be accepted; out-of-range/missing/unknown must be refused; file and ENV agree; the real binary refuses exactly what the probe refuses and displays the probe's values; observed behaviour: a Server built through the real file configuration path answers 2b+1 queued requests in batches of exactly {b, b, 1} for the written batch_size b."));
     ctx.sample(json!({"key":"port","value":"70000","source":"File","expect":"refused"}));
     ctx.sample(json!({"key":"num_workers","value":"4","source":"Env","expect":"accepted, effective 4"}));
     ctx.assume("environment variable names follow the README table's pattern ROUGHENOUGH_<KEY>; num_workers/client_stats/persistence_directory are documented in the ServerConfig trait docs");
